@@ -932,6 +932,12 @@ func vfkInformer(r *core.Run) {
 		{vfkApply1, vfkTombstone1, vfkApply2},
 		{vfkApply1, vfkApply1, vfkReplace1, vfkApply1, vfkReplace1},
 		{vfkApply1, vfkStatusOdd1, vfkApply1, vfkPatchErr, vfkApply2, vfkApply1},
+		// a refused new version (the loaded one stays, the status the provider wrote says "activation failed" and comes back with
+		// the next events) directly followed by each way the object can leave this instance
+		{vfkApply1, vfkInvalid1, vfkDelete1, vfkApply2},
+		{vfkApply1, vfkInvalid1, vfkClassAway1, vfkApply2},
+		{vfkApply1, vfkInvalid1, vfkReplace1},
+		{vfkApply1, vfkInvalid1, vfkTombstone1, vfkApply2},
 	}
 	for n := 0; n < nSeq; n++ {
 		var seq []int
